@@ -32,7 +32,10 @@ META = {
              "real packet_generator(combine_segmented_packets=True) that the yielded raw packets are exactly those of an independent reference "
              "state machine (per APID: FIRST opens, consecutive-mod-16384 CONTINUATIONs extend, LAST closes and emits first packet + later data "
              "fields minus the secondary header; everything else dropped), byte for byte and in order, so that no input packet contributes to two "
-             "outputs, with the 'no start' / 'out of sequence' warnings exactly where the reference drops.",
+             "outputs, with the 'no start' / 'out of sequence' warnings exactly where the reference drops.  In addition an INDUCTIVE STEP "
+             "(checks/induct12.py): the body of the packet loop, lifted from the function's AST, is run from an arbitrary segment table (up to 3 stored "
+             "segments for each of 2 APIDs) with an arbitrary incoming packet, and z3 proves outputs, warnings and the NEW TABLE equal the reference "
+             "transition - which extends the result to histories of any length.",
     "trusted": "z3; BV proxies; dict lookup by a symbolic APID = pick of a feasible value; cross-validated on every path against the unpatched "
                "generator; the reference state machine (Appendix A of DESIGN.md) is my reading of the property",
     "bounds": {"quick": {"K": 4, "APIDs": 2, "secondary_header_bytes": "0..7 (longer than the shorter data fields)", "data bytes per packet": "3..6"},
@@ -141,6 +144,9 @@ class Twin(Segments):
 
 
 def make(job):
+    if job["h"].startswith("induct12"):
+        from checks import induct12
+        return induct12.make(job)
     lib = bv.install(128)
     h = {"seg": Segments, "twin": Twin}[job["h"]](job)
     h.lib = lib
@@ -153,8 +159,9 @@ def jobs(tier):
         cfgs = [(4, 2)]
     else:
         cfgs = [(5, 2), (4, 3)]
+    from checks import induct12
     return [{"name": f"K{K}-A{A}", "h": "seg", "params": {"K": K, "A": A}, "split": 16, "chunk": 40, "max_paths": 400000,
-             "must_reach": ["1out/0warn", "0out/1warn", "2out/0warn"]} for K, A in cfgs]
+             "must_reach": ["1out/0warn", "0out/1warn", "2out/0warn"]} for K, A in cfgs] + induct12.jobs(tier)
 
 
 def vacuity_jobs():
